@@ -303,10 +303,14 @@ impl<'ctx> NaivePriceRepository<'ctx> {
                     continue;
                 }
             }
-            for (j, Entry(source, rates)) in match self.records.get(&prev) {
+            // visit the neighbors in commodity order, not in HashMap order,
+            // as the first found rate wins among the equally good ones.
+            let mut neighbors: Vec<_> = match self.records.get(&prev) {
                 None => continue,
-                Some(x) => x,
-            } {
+                Some(x) => x.iter().collect(),
+            };
+            neighbors.sort_unstable_by_key(|(j, _)| j.as_str());
+            for (j, Entry(source, rates)) in neighbors {
                 let bound = rates.partition_point(|(record_date, _)| record_date <= &date);
                 log::debug!(
                     "found next commodity {} with date bound {}",
